@@ -3,12 +3,30 @@ import NurbsVerif.Lemmas.Deriv
 import NurbsVerif.Lemmas.Small
 import NurbsVerif.Lemmas.DerivAll
 import NurbsVerif.Lemmas.RatDers
+import NurbsVerif.Lemmas.SurfDerivBasis
+import NurbsVerif.Lemmas.SurfDerivPoly
+import NurbsVerif.Lemmas.SurfDeriv
+import NurbsVerif.Lemmas.RatSurfDers
+import NurbsVerif.Lemmas.RatSurfDersModel
+import NurbsVerif.Lemmas.SurfDerivRat
+import NurbsVerif.Lemmas.SurfDerivWitness
+import NurbsVerif.Lemmas.A23Final
 
 /-!
 # C02  Derivatives returned are the true derivatives of the shape  (statements so far)
+
+Curves: every order (`curve_derivatives_are_true_derivatives`), A4.2 (`rational_curve_derivatives_leibniz`).
+Basis table: `basis_derivative_table_is_true_derivative`; A2.3 transcribed statement by statement returns that
+table (`a23_as_coded_is_the_derivative_table`, `a23_divisors_positive`), A3.2 over it is the true derivative
+(`a32_with_a23_is_true_derivative`).
+Surfaces: every mixed order (`surface_derivatives_are_true_mixed_derivatives`; the bivariate span polynomial
+lives in Mathlib's `F[X][Y]`, inner indeterminate = `u`, outer = `v`), A4.4
+(`rational_surface_derivatives_leibniz`, `…_of_true_derivatives`, uniqueness of the solution).
+Normal / normalisation: `normal_orthogonal_to_tangents`, `normalized_vector_has_unit_length`.
 -/
 namespace C02
 open Geomdl Blossom Polynomial
+open scoped Polynomial.Bivariate
 variable {K : Type} [Field K]
 
 section ordered
@@ -47,7 +65,236 @@ theorem rational_curve_derivatives_leibniz (CKw : List (List F)) (d : ℕ) (hrow
       = (CKw.getD k []).getD j 0 :=
   ratCurveDers_leibniz CKw d hrows hw k j hk hj
 
+
+/-! ### the derivative table of the basis functions -/
+
+/-- The `r`-th basis polynomial of a span (the span polynomial of the unit control sequence) takes
+    the value that A2.2 (`basis_function`) returns, at every parameter. -/
+theorem basis_polynomial_is_basis_function (p : ℕ) (U : ℕ → F) (κ : ℕ) (u : F) (r : ℕ) (hp : p ≤ κ) (hr : r ≤ p) :
+    eval u (basisSpanPoly p U κ r) = (basisFuns p U κ u).getD r 0 :=
+  eval_basisSpanPoly p U κ u r hp hr
+
+/-- **Basis function derivatives.**  Row `k`, column `r` of the table `basisDers` (the specification
+    that `helpers.basis_function_ders`, A2.3, is compared with in exact arithmetic) is the `k`-th derivative
+    of the `r`-th basis polynomial of the span at `u`, for every `k ≤ d` – in particular zero for `k > p`
+    (`basis_polynomial_derivative_above_degree`). -/
+theorem basis_derivative_table_is_true_derivative (p : ℕ) (U : ℕ → F) (κ : ℕ) (u : F) (d k r : ℕ)
+    (hp : p ≤ κ) (hm : Monotone U) (hspan : U κ < U (κ+1)) (hk : k ≤ d) (hr : r ≤ p) :
+    ((basisDers p U κ u d).getD k []).getD r 0 = eval u (derivative^[k] (basisSpanPoly p U κ r)) :=
+  basisDers_eq_derivative p U κ u d k r hp hm hspan hk hr
+
+/-- Above the degree the derivatives of the basis polynomials are the zero polynomial. -/
+theorem basis_polynomial_derivative_above_degree (p : ℕ) (U : ℕ → F) (κ r : ℕ)
+    (hp : p ≤ κ) (hm : Monotone U) (hspan : U κ < U (κ+1)) (k : ℕ) (hk : p < k) :
+    derivative^[k] (basisSpanPoly p U κ r) = 0 :=
+  basisSpanPoly_derivative_above p U κ r hp hm hspan k hk
+
+/-- The span polynomial of a curve is the combination of the basis polynomials of the span with the
+    control points as coefficients (so the curve theorem above is about `Σ_r N_r · P_r`). -/
+theorem span_polynomial_is_combination_of_basis (p : ℕ) (U : ℕ → F) (P : List (List F)) (κ j : ℕ) (hp : p ≤ κ) :
+    spanPoly p U P κ j
+      = ∑ r ∈ Finset.range (p+1), C ((ptsGet P (κ - p + r)).getD j 0) * basisSpanPoly p U κ r :=
+  spanPoly_eq_sum_basis p U P κ j hp
+
+
+/-! ### Algorithm A2.3 as coded -/
+
+/-- **A2.3 as coded is the derivative table.**  `basisFunsDersA23` is the statement-by-statement
+    transcription of `helpers.basis_function_ders` (the `ndu` table, the alternating rows `a[s1]`, `a[s2]`,
+    the `j1 / j2` window, the accumulation of `d`, the final factors `p!/(p-k)!`; compared with the real
+    function in exact arithmetic by the stream `bders23`).  For every degree, knot sequence, span index
+    `κ ≥ p`, parameter and requested order `d ≤ p` (the guard under which the code does not raise) it
+    returns exactly the specification table `basisDers`. -/
+theorem a23_as_coded_is_the_derivative_table (p : ℕ) (U : ℕ → F) (κ : ℕ) (u : F) (d : ℕ) (hd : d ≤ p) (hp : p ≤ κ) :
+    basisFunsDersA23 p U κ u d = basisDers p U κ u d :=
+  basisFunsDersA23_eq_basisDers p U κ u d hd hp
+
+/-- … hence, on a non-empty span of a sorted knot vector, entry `[k][r]` returned by A2.3 is the `k`-th
+    derivative of the `r`-th basis polynomial of the span at `u`. -/
+theorem a23_as_coded_is_true_derivative (p : ℕ) (U : ℕ → F) (κ : ℕ) (u : F) (d k r : ℕ)
+    (hd : d ≤ p) (hp : p ≤ κ) (hm : Monotone U) (hspan : U κ < U (κ+1)) (hk : k ≤ d) (hr : r ≤ p) :
+    ((basisFunsDersA23 p U κ u d).getD k []).getD r 0 = eval u (derivative^[k] (basisSpanPoly p U κ r)) :=
+  basisFunsDersA23_true p U κ u d k r hd hp hm hspan hk hr
+
+/-- **A2.3 does not divide by zero under the span guard.**  Every divisor in `helpers.basis_function_ders`
+    is an entry `ndu[c][a]` with `a < c ≤ p` of the lower triangle of `ndu` (`ndu[j][r]` in the first loop;
+    `ndu[pk+1][rk]`, `ndu[pk+1][rk+j]` for `j1 ≤ j ≤ j2`, `ndu[pk+1][r]` in the derivative loop – the `j1 / j2`
+    window keeps the column below `pk+1`); on a non-empty span of a sorted knot vector these entries are
+    positive, so the totalised division of the model is never used at zero. -/
+theorem a23_divisors_positive (p : ℕ) (U : ℕ → F) (κ : ℕ) (u : F) (hm : Monotone U) (hspan : U κ < U (κ+1))
+    (c a : ℕ) (hc : c ≤ p) (ha : a < c) : 0 < (nduTable p U κ u).get c a :=
+  nduTable_lower_pos p U κ u hm hspan c a hc ha
+
+/-- **A3.2 with A2.3** (`CurveEvaluator.derivatives`: `CK[k] = Σ_r ders[k][r] · P[κ-p+r]`): the sum over the
+    table returned by A2.3 as coded is the `k`-th derivative of the span polynomial – the same value
+    as the A3.3/A3.4 family (`curve_derivatives_are_true_derivatives`), so both evaluator families agree. -/
+theorem a32_with_a23_is_true_derivative (p : ℕ) (U : ℕ → F) (P : List (List F)) (κ : ℕ) (u : F) (d k j : ℕ)
+    (hd : d ≤ p) (hp : p ≤ κ) (hm : Monotone U) (hspan : U κ < U (κ+1)) (hk : k ≤ d) :
+    ∑ r ∈ Finset.range (p+1),
+        ((basisFunsDersA23 p U κ u d).getD k []).getD r 0 * (ptsGet P (κ - p + r)).getD j 0
+      = eval u (derivative^[k] (spanPoly p U P κ j)) :=
+  a32_sum_true p U P κ u d k j hd hp hm hspan hk
+
+/-! ### surfaces -/
+
+/-- `∂/∂u` of a bivariate polynomial (defined by exchanging the indeterminates around Mathlib's
+    derivative) is the coefficientwise derivative: it differentiates every coefficient of `vⁿ`, which is
+    a polynomial in `u`.  (`∂/∂v` is Mathlib's `derivative` itself.) -/
+theorem partial_u_is_coefficientwise_derivative (S : F[X][Y]) (n : ℕ) :
+    (pderivU S).coeff n = derivative (S.coeff n) :=
+  coeff_pderivU S n
+
+/-- The bivariate span polynomial `Σ_r Σ_s P[r][s] · N_r(u) · M_s(v)` evaluates to the surface point
+    (A3.5 model, order `(0,0)`; ties C02 to C01) at every `(u, v)`. -/
+theorem surface_span_polynomial_is_the_surface (pu pv : ℕ) (Uu Uv : ℕ → F) (su sv : ℕ) (P : List (List F))
+    (κu κv : ℕ) (u v : F) (d j : ℕ) (hpu : pu ≤ κu) (hpv : pv ≤ κv) (hκu : κu < su) (hκv : κv < sv)
+    (hlen : P.length = su * sv) (hP : NetOk d P) :
+    (surfacePointAt pu pv Uu Uv sv P κu κv u v).getD j 0
+      = (surfSpanPoly pu pv Uu Uv sv P κu κv j).evalEval u v :=
+  surfacePointAt_eq_surfSpanPoly pu pv Uu Uv su sv P κu κv u v d j hpu hpv hκu hκv hlen hP
+
+/-- **Surface derivatives of every mixed order are the true partial derivatives.**  Entry `[k][l]`,
+    coordinate `j`, of the model of `Surface.derivatives(u, v, order)` equals `∂ᵏ/∂uᵏ ∂ˡ/∂vˡ` of the
+    bivariate span polynomial – the polynomial the surface coincides with on the half-open span
+    rectangle, so on knot lines these are the derivatives from the right – evaluated at `(u, v)`; both
+    sides are zero when `k > pu` or `l > pv`.  For all `k, l ≤ order` with the default evaluator
+    (`tri = false`) and for `k + l ≤ order` with `SurfaceEvaluator2` (`tri = true`).  Every degree pair,
+    sorted knot vectors, non-empty spans, parameters, dimension, requested order. -/
+theorem surface_derivatives_are_true_mixed_derivatives (pu pv : ℕ) (Uu Uv : ℕ → F) (su sv : ℕ)
+    (P : List (List F)) (κu κv : ℕ) (u v : F) (d j order k l : ℕ) (tri : Bool)
+    (hpu : pu ≤ κu) (hpv : pv ≤ κv) (hκu : κu < su) (hκv : κv < sv) (hlen : P.length = su * sv) (hP : NetOk d P)
+    (hmu : Monotone Uu) (hmv : Monotone Uv) (hspu : Uu κu < Uu (κu+1)) (hspv : Uv κv < Uv (κv+1))
+    (hk : k ≤ order) (hl : l ≤ order) (htri : tri = false ∨ k + l ≤ order) :
+    (((surfaceDersAt pu pv Uu Uv sv P κu κv u v order tri).getD k []).getD l []).getD j 0
+      = (pderivU^[k] (pderivV^[l] (surfSpanPoly pu pv Uu Uv sv P κu κv j))).evalEval u v :=
+  surfaceDersAt_all pu pv Uu Uv su sv P κu κv u v d j order k l tri hpu hpv hκu hκv hlen hP hmu hmv hspu hspv
+    hk hl htri
+
+/-- The order of the two partial differentiations is irrelevant. -/
+theorem surface_mixed_derivatives_commute (pu pv : ℕ) (Uu Uv : ℕ → F) (sv : ℕ) (P : List (List F))
+    (κu κv j k l : ℕ) :
+    pderivV^[l] (pderivU^[k] (surfSpanPoly pu pv Uu Uv sv P κu κv j))
+      = pderivU^[k] (pderivV^[l] (surfSpanPoly pu pv Uu Uv sv P κu κv j)) :=
+  surfSpanPoly_pderiv_comm pu pv Uu Uv sv P κu κv j k l
+
+/-- With `SurfaceEvaluator2` (`tri = true`) the entries with `k + l > order` are not computed: they
+    keep the initial zero vector (stated, not a violation: the book's A3.6/A3.8 fill `k + l ≤ d` only). -/
+theorem surface_derivatives_triangular_rest_zero (pu pv : ℕ) (Uu Uv : ℕ → F) (sv : ℕ) (P : List (List F))
+    (κu κv : ℕ) (u v : F) (order k l : ℕ) (hk : k ≤ order) (hl : l ≤ order) (hkl : order < k + l) :
+    ((surfaceDersAt pu pv Uu Uv sv P κu κv u v order true).getD k []).getD l [] = vzero (dimOf P) :=
+  surfaceDersAt_tri_zero pu pv Uu Uv sv P κu κv u v order k l hk hl hkl
+
+/-- **Rational surfaces (A4.4, the list model of `SurfaceEvaluatorRational.derivatives`)**: for any
+    table `SKLw` of homogeneous derivative vectors (`d+1` coordinates, the last one the weight part) the
+    returned vectors `S⁽ᵃᵇ⁾` solve the bivariate Leibniz system
+    `Σ_{i≤k} Σ_{j≤l} C(k,i) C(l,j) · w⁽ⁱʲ⁾ · S⁽ᵏ⁻ⁱ,ˡ⁻ʲ⁾ = A⁽ᵏˡ⁾` for all `k, l ≤ order`, in every coordinate. -/
+theorem rational_surface_derivatives_leibniz (SKLw : List (List (List F))) (order d : ℕ)
+    (hrows : ∀ i j, i ≤ order → j ≤ order → ((SKLw.getD i []).getD j []).length = d + 1)
+    (hw : ((SKLw.getD 0 []).getD 0 []).getD d 0 ≠ 0)
+    (k l c : ℕ) (hk : k ≤ order) (hl : l ≤ order) (hc : c < d) :
+    ∑ i ∈ Finset.range (k+1), ∑ j ∈ Finset.range (l+1),
+      (Nat.choose k i : F) * (Nat.choose l j : F) * ((SKLw.getD i []).getD j []).getD d 0
+        * ((((ratSurfaceDers SKLw order).getD (k - i) []).getD (l - j) []).getD c 0)
+      = ((SKLw.getD k []).getD l []).getD c 0 :=
+  ratSurfaceDers_leibniz SKLw order d hrows hw k l c hk hl hc
+
+/-- The bivariate Leibniz system determines its solution: two tables that satisfy it for all `k ≤ m`,
+    `l ≤ n` with the same data and `w⁽⁰⁰⁾ ≠ 0` agree there.  (So the vectors returned by A4.4 are *the*
+    derivatives of the quotient `A / w`, which satisfy the system by the product rule.) -/
+theorem leibniz_system_has_unique_solution (A w E E' : ℕ → ℕ → F) (hw : w 0 0 ≠ 0) (m n : ℕ)
+    (h : ∀ k l, k ≤ m → l ≤ n → ∑ i ∈ Finset.range (k+1), ∑ j ∈ Finset.range (l+1),
+      (Nat.choose k i : F) * (Nat.choose l j : F) * w i j * E (k - i) (l - j) = A k l)
+    (h' : ∀ k l, k ≤ m → l ≤ n → ∑ i ∈ Finset.range (k+1), ∑ j ∈ Finset.range (l+1),
+      (Nat.choose k i : F) * (Nat.choose l j : F) * w i j * E' (k - i) (l - j) = A k l)
+    (k l : ℕ) (hk : k ≤ m) (hl : l ≤ n) : E k l = E' k l :=
+  leibniz2_unique A w E E' hw m n h h' k l hk hl
+
+/-- **Rational surfaces end to end**: `Surface.derivatives` of a rational surface (model: A4.4 applied
+    to the derivative table of the homogeneous surface, default evaluator) returns vectors that solve the
+    Leibniz system whose data are the true mixed partial derivatives of the numerator coordinate `A_c` and
+    of the weight function `w` (bivariate span polynomials of the homogeneous net), whenever `w(u,v) ≠ 0`. -/
+theorem rational_surface_derivatives_leibniz_of_true_derivatives (pu pv : ℕ) (Uu Uv : ℕ → F) (su sv : ℕ)
+    (P : List (List F)) (κu κv : ℕ) (u v : F) (d c order k l : ℕ)
+    (hpu : pu ≤ κu) (hpv : pv ≤ κv) (hκu : κu < su) (hκv : κv < sv) (hlen : P.length = su * sv)
+    (hP : NetOk (d+1) P)
+    (hmu : Monotone Uu) (hmv : Monotone Uv) (hspu : Uu κu < Uu (κu+1)) (hspv : Uv κv < Uv (κv+1))
+    (hw0 : (surfSpanPoly pu pv Uu Uv sv P κu κv d).evalEval u v ≠ 0)
+    (hk : k ≤ order) (hl : l ≤ order) (hc : c < d) :
+    ∑ i ∈ Finset.range (k+1), ∑ j ∈ Finset.range (l+1),
+      (Nat.choose k i : F) * (Nat.choose l j : F)
+        * (pderivU^[i] (pderivV^[j] (surfSpanPoly pu pv Uu Uv sv P κu κv d))).evalEval u v
+        * ((((ratSurfaceDers (surfaceDersAt pu pv Uu Uv sv P κu κv u v order false) order).getD (k - i) []).getD
+              (l - j) []).getD c 0)
+      = (pderivU^[k] (pderivV^[l] (surfSpanPoly pu pv Uu Uv sv P κu κv c))).evalEval u v :=
+  ratSurfaceDers_true pu pv Uu Uv su sv P κu κv u v d c order k l hpu hpv hκu hκv hlen hP hmu hmv hspu hspv
+    hw0 hk hl hc
+
+/-! ### normal vector and normalisation (`operations.normal`, `operations.tangent`) -/
+
+/-- `operations.normal` is `vector_cross(skl[1][0], skl[0][1])`: for a 3-D surface the cross product of
+    the two first partial derivative vectors exists and is orthogonal to both of them. -/
+theorem normal_orthogonal_to_tangents (pu pv : ℕ) (Uu Uv : ℕ → F) (su sv : ℕ) (P : List (List F))
+    (κu κv : ℕ) (u v : F) (order : ℕ) (tri : Bool)
+    (hpu : pu ≤ κu) (hpv : pv ≤ κv) (hκu : κu < su) (hκv : κv < sv) (hlen : P.length = su * sv) (hP : NetOk 3 P)
+    (ho : 1 ≤ order) :
+    ∃ n, Lin.vectorCross (((surfaceDersAt pu pv Uu Uv sv P κu κv u v order tri).getD 1 []).getD 0 [])
+                        (((surfaceDersAt pu pv Uu Uv sv P κu κv u v order tri).getD 0 []).getD 1 []) = some n ∧
+      Lin.vectorDot n (((surfaceDersAt pu pv Uu Uv sv P κu κv u v order tri).getD 1 []).getD 0 []) = 0 ∧
+      Lin.vectorDot n (((surfaceDersAt pu pv Uu Uv sv P κu κv u v order tri).getD 0 []).getD 1 []) = 0 :=
+  surfaceNormal_orthogonal pu pv Uu Uv su sv P κu κv u v order tri hpu hpv hκu hκv hlen hP ho
+
+/-- `vector_normalize` (used by `tangent` / `normal` with `normalize=True`): the result is `v / mag`
+    and has squared length exactly 1 whenever the supplied magnitude is a square root of the squared
+    length of `v` (the floating-point `sqrt` and the 18-decimals rounding are outside the statement). -/
+theorem normalized_vector_has_unit_length (v n : List F) (mag : F)
+    (hmag : mag * mag = Lin.normSq v) (h : Lin.vectorNormalize v mag = some n) :
+    Lin.normSq n = 1 ∧ 0 < mag ∧ n = v.map (fun x => x / mag) :=
+  ⟨Lin.vectorNormalize_unit v n mag hmag h, Lin.vectorNormalize_parallel v n mag h⟩
+
 end ordered
+
+/-! ### the hypotheses are satisfiable: a concrete rational surface
+
+degree `(2, 1)`, knot vectors `[0,0,0,1,1,1]` and `[0,0,1,1]`, a `3 × 2` homogeneous net in dimension `3+1`
+with different weights, the parameter pair `(1/3, 1/2)`, requested order 2 (above the `v` degree). -/
+section witness
+/-- the surface theorem, instantiated (mixed order `(2,1)`, coordinate 2) -/
+example :
+    (((surfaceDersAt 2 1 exU exV 2 exP 2 1 (1/3) (1/2) 2 false).getD 2 []).getD 1 []).getD 2 0
+      = (pderivU^[2] (pderivV^[1] (surfSpanPoly 2 1 exU exV 2 exP 2 1 2))).evalEval (1/3) (1/2) :=
+  surface_derivatives_are_true_mixed_derivatives 2 1 exU exV 3 2 exP 2 1 (1/3) (1/2) 4 2 2 2 1 false
+    (by omega) (by omega) (by omega) (by omega) rfl exP_ok exU_mono exV_mono (by decide +kernel) (by decide +kernel)
+    (by omega) (by omega) (Or.inl rfl)
+
+/-- … whose left-hand side is the non-zero number `12` -/
+example : (((surfaceDersAt 2 1 exU exV 2 exP 2 1 (1/3) (1/2) 2 false).getD 2 []).getD 1 []).getD 2 0 = 12 := by
+  decide +kernel
+
+/-- the rational end-to-end theorem, instantiated (`k = 2`, `l = 1`, coordinate 1) -/
+example :
+    ∑ i ∈ Finset.range (2+1), ∑ j ∈ Finset.range (1+1),
+      (Nat.choose 2 i : ℚ) * (Nat.choose 1 j : ℚ)
+        * (pderivU^[i] (pderivV^[j] (surfSpanPoly 2 1 exU exV 2 exP 2 1 3))).evalEval (1/3) (1/2)
+        * ((((ratSurfaceDers (surfaceDersAt 2 1 exU exV 2 exP 2 1 (1/3) (1/2) 2 false) 2).getD (2 - i) []).getD
+              (1 - j) []).getD 1 0)
+      = (pderivU^[2] (pderivV^[1] (surfSpanPoly 2 1 exU exV 2 exP 2 1 1))).evalEval (1/3) (1/2) :=
+  rational_surface_derivatives_leibniz_of_true_derivatives 2 1 exU exV 3 2 exP 2 1 (1/3) (1/2) 3 1 2 2 1
+    (by omega) (by omega) (by omega) (by omega) rfl exP_ok exU_mono exV_mono (by decide +kernel) (by decide +kernel)
+    ex_weight (by omega) (by omega) (by omega)
+
+/-- the basis table theorem, instantiated -/
+example : ((basisDers 2 exU 2 (1/3) 2).getD 1 []).getD 0 0 = eval (1/3) (derivative^[1] (basisSpanPoly 2 exU 2 0)) :=
+  basis_derivative_table_is_true_derivative 2 exU 2 (1/3) 2 1 0 (by omega) exU_mono (by decide +kernel) (by omega)
+    (by omega)
+
+/-- A2.3 as coded on the witness knot vector: second derivatives of the three quadratic basis functions -/
+example : (basisFunsDersA23 2 exU 2 (1/3) 2).getD 2 [] = [2, -4, 2] := by decide +kernel
+
+/-- normalisation: `[3, 4]` with magnitude `5` -/
+example : Lin.normSq ([3/5, 4/5] : List ℚ) = 1 :=
+  (normalized_vector_has_unit_length [3, 4] [3/5, 4/5] 5 (by decide +kernel) (by decide +kernel)).1
+end witness
+
 
 /-- A3.3/A3.4 for the first derivative: the derivative of the span polynomial (de Boor scheme with
     the indeterminate as parameter) evaluated at `u` is `p` times the degree `p-1` evaluation of the
